@@ -3,7 +3,7 @@
    (UTF-8 decoding with U+FFFD replacement), strings.ToLower (ASCII part), strings.TrimSpace.
    Library file: definitions and the generic lemmas about them. *)
 From Coq Require Import List ZArith NArith Bool Lia Arith.
-From Scalibr Require Import Semantic.Cmp Semantic.LexPad.
+From Scalibr Require Import Semantic.Cmp Semantic.LexPad Semantic.Generated_Tables.
 Import ListNotations.
 Open Scope N_scope.
 
@@ -115,7 +115,7 @@ Fixpoint dec_digits (fuel : nat) (n : N) (acc : bytes) : bytes :=
   | O => acc
   | S f => if n <? 10 then (48 + n) :: acc else dec_digits f (n / 10) ((48 + n mod 10) :: acc)
   end.
-Definition N_to_dec (n : N) : bytes := dec_digits (S (N.size_nat n)) n [].
+Definition N_to_dec (n : N) : bytes := dec_digits (S (N.to_nat (N.size n))) n [].
 (* big.Int.String() / %d *)
 Definition Z_to_dec (z : Z) : bytes :=
   match z with
@@ -210,12 +210,36 @@ Definition sanitize (s : bytes) : bytes :=
 
 Definition is_ascii (s : bytes) : bool := forallb (fun c => c <? 128) s.
 
-(* strings.ToLower restricted to what is modelled: ASCII letters are lowered; if the string has a
-   non-ASCII byte Go goes through strings.Map, which also replaces invalid bytes by U+FFFD.
-   NOT modelled: case mapping of non-ASCII letters (the harness keeps such inputs out of the
-   correspondence and reports how many). *)
+(* utf8.EncodeRune / string(rune) for a valid code point *)
+Definition encode_rune (cp : N) : bytes :=
+  if cp <? 128 then [cp]
+  else if cp <? 2048 then [192 + cp / 64; 128 + cp mod 64]
+  else if cp <? 65536 then [224 + cp / 4096; 128 + (cp / 64) mod 64; 128 + cp mod 64]
+  else [240 + cp / 262144; 128 + (cp / 4096) mod 64; 128 + (cp / 64) mod 64; 128 + cp mod 64].
+
+Fixpoint assoc_N (tbl : list (N * N)) (k : N) : option N :=
+  match tbl with
+  | [] => None
+  | (a, v) :: r => if a =? k then Some v else assoc_N r k
+  end.
+
+(* unicode.ToLower: ASCII, and the toolchain's table below gen_unicode_lower_limit (U+0530: Latin-1,
+   Latin Extended, IPA, Greek, Cyrillic), generated by harness/cmd/semtables.  Code points at or above
+   the limit are left unchanged: NOT modelled (Armenian, Georgian, Latin Extended Additional, Greek
+   Extended, full-width forms ...); the harness keeps inputs where that matters out of the
+   correspondence and counts them. *)
+Definition lower_cp (cp : N) : N :=
+  if cp <? 128 then lower_byte cp
+  else match assoc_N gen_unicode_lower_pairs cp with Some l => l | None => cp end.
+
+(* strings.ToLower: the ASCII fast path is bytewise; otherwise strings.Map(unicode.ToLower, s), which
+   re-encodes every changed rune and turns every invalid byte into U+FFFD *)
 Definition to_lower (s : bytes) : bytes :=
-  if is_ascii s then map lower_byte s else sanitize (map lower_byte s).
+  if is_ascii s then map lower_byte s
+  else flat_map (fun r : bytes * N * bool =>
+                   match r with
+                   | (bs, cp, ok) => if ok then (if lower_cp cp =? cp then bs else encode_rune (lower_cp cp)) else replacement
+                   end) (runes s).
 
 (* unicode.IsSpace *)
 Definition is_space_cp (cp : N) : bool :=
@@ -227,6 +251,13 @@ Definition rune_is_space (r : bytes * N * bool) : bool :=
 
 Fixpoint drop_while {A} (f : A -> bool) (l : list A) : list A :=
   match l with [] => [] | x :: r => if f x then drop_while f r else l end.
+
+(* longest prefix satisfying f, and the rest *)
+Fixpoint span {A} (f : A -> bool) (l : list A) : list A * list A :=
+  match l with
+  | [] => ([], [])
+  | x :: r => if f x then let (a, b) := span f r in (x :: a, b) else ([], l)
+  end.
 
 (* strings.TrimSpace *)
 Definition trim_space (s : bytes) : bytes :=
